@@ -15,6 +15,9 @@ store classes over a tracing connection and returns everything a `prog` of coq/C
       A  nothing stored            P  a row under the addressed key in every table (all columns =
       C  same key, other columns different (UNIQUE conflict for INSERT paths that first DELETE with
          a filter)                     what the sentinels are bound as)
+      R  the same call made once before on the SAME object (state kept outside the database, e.g. a
+         cache of what was written, shows as a different trace; the attributes the first call changed
+         are reported)
   and, for a list parameter (found by probing: the call fails with TypeError on a scalar
   sentinel), with 0, 1 and 3 elements in variants A and P;
 * every constructor: on a fresh database, again on the same connection, again after all rows were
@@ -108,6 +111,24 @@ def _child(jobfile):
 
         def __bytes__(self):
             return repr(self).encode()
+
+        # the same accessor chain of the same argument is the same value (also after a conversion to text / bytes):
+        # code that remembers or compares values (caches, "unchanged since last time") must see that
+        def __eq__(self, other):
+            if isinstance(other, Sent):
+                return (self._r, self._c, self._e) == (other._r, other._c, other._e)
+            if isinstance(other, (bytes, bytearray)):
+                return bytes(other) == bytes(self)
+            if isinstance(other, str):
+                return other == repr(self)
+            return NotImplemented
+
+        def __ne__(self, other):
+            r = self.__eq__(other)
+            return r if r is NotImplemented else not r
+
+        def __hash__(self):
+            return hash((self._r, self._c, self._e))
 
     def desc(p):
         if isinstance(p, Sent):
@@ -251,6 +272,13 @@ def _child(jobfile):
             sqlite3.Connection.commit(conn)
         finally:
             conn._mute = False
+
+    def snap(o):
+        """what an object keeps outside the database (its attributes other than the connection)"""
+        try:
+            return dict((k, repr(v)[:4000]) for k, v in vars(o).items() if not isinstance(v, sqlite3.Connection))
+        except Exception:
+            return {}
 
     def call(f, args):
         try:
@@ -400,11 +428,20 @@ def _child(jobfile):
                     c = store_conn()
                     try:
                         o = cls(c)
-                        prepopulate(c, variant)
-                        del c._log[:]
+                        prepopulate(c, "A" if variant == "R" else variant)
                         args = [[Sent(p, (), i) for i in range(k)] if p == loopp else Sent(p) for p in d["params"]]
+                        changed = None
+                        if variant == "R":
+                            # the same call made before on the SAME object: whatever the object remembers
+                            # outside the database shows as a difference to the other variants
+                            before = snap(o)
+                            call(getattr(o, mname), args)
+                            after = snap(o)
+                            changed = sorted(a for a in set(before) | set(after) if before.get(a) != after.get(a))
+                        del c._log[:]
                         exc = call(getattr(o, mname), args)
-                        return {"variant": variant, "k": k if loopp else None, "events": list(c._log), "exc": exc}
+                        return {"variant": variant, "k": k if loopp else None, "events": list(c._log), "exc": exc,
+                                "state_changed": changed}
                     finally:
                         c.close()
                 first = one("A", None, 0)
@@ -421,9 +458,9 @@ def _child(jobfile):
                         continue
                 m["loop"] = loopp
                 if loopp is None:
-                    m["runs"] = [first, one("P", None, 0), one("C", None, 0)]
+                    m["runs"] = [first, one("P", None, 0), one("C", None, 0), one("R", None, 0)]
                 else:
-                    m["runs"] = [one(v, loopp, k) for k in (0, 1, 3) for v in ("A", "P")]
+                    m["runs"] = [one(v, loopp, k) for k in (0, 1, 3) for v in ("A", "P")] + [one("R", loopp, 1)]
 
     def readback(obj):
         """generated values of the initialising store, as the public API reports them"""
